@@ -213,6 +213,10 @@ def _interp(feature, holder):
             holder.setdefault("subs", {})[self.prefix] = s
             return s
 
+        def get_unique_values(self, feature_id):
+            """assumed contract of Motl.get_unique_values (Series.unique): the distinct values in order of first appearance, not sorted"""
+            return _Vals("pd.unique", (self.df, feature_id))
+
     class _DfStub:
         asked = None
 
